@@ -3,7 +3,10 @@ package service
 import (
 	"context"
 	"strings"
+	"time"
 
+	"github.com/streamingfast/bstream"
+	"github.com/streamingfast/bstream/stream"
 	"github.com/streamingfast/dstore"
 	"github.com/streamingfast/substreams"
 	"github.com/streamingfast/substreams/block"
@@ -13,9 +16,11 @@ import (
 	pbsubstreamsrpc "github.com/streamingfast/substreams/pb/sf/substreams/rpc/v2"
 	pbsubstreams "github.com/streamingfast/substreams/pb/sf/substreams/v1"
 	"github.com/streamingfast/substreams/pipeline/exec"
+	"github.com/streamingfast/substreams/service/config"
 	"github.com/streamingfast/substreams/storage/execout"
 	pboutput "github.com/streamingfast/substreams/storage/execout/pb"
 	"github.com/streamingfast/substreams/storage/store"
+	"github.com/streamingfast/substreams/wasm"
 	sym "github.com/streamingfast/substreams/zz_verifsym"
 	"go.uber.org/zap"
 )
@@ -415,4 +420,80 @@ func c01Deliver(url string, graph int, segSize, start, stop, total uint64, want 
 	}
 	sym.Reach("delivered")
 	return true
+}
+
+// VerifC01Linear: the same module graph executed linearly — the real Tier1Service.blocks in
+// development mode from the modules' first block (no back-processing, no orchestrator: the
+// pipeline executes every block as it arrives) — sends the client, block by block, exactly
+// the payloads of the sequential reference; together with VerifC01Staged (parallel jobs,
+// cache, walker against the same reference) this is "linear == parallel == cached".
+func VerifC01Linear() {
+	manifest.TestUseSimpleHash = true
+	total := uint64(sym.Param("BLOCKS", 4))
+	fake := &c07Fake{segSize: 8, valLen: sym.Param("VALLEN", 1), graph: sym.Param("GRAPH", 0), emit: sym.Byte("emit"), keys: sym.Byte("keys"), vals: sym.BytesN("vals", 2), wals: sym.BytesN("wals", 2)}
+	sym.Assume(fake.emit < 1<<total)
+	sym.Assume(fake.keys < 1<<total)
+	want := c01Reference(fake, total)
+
+	defer sym.RemoveURLStores()
+	_, url := sym.NewURLStore("cache")
+	base, err := dstore.NewStore(url, "zst", "zstd", false)
+	if err != nil {
+		sym.Unreachable("store-opens")
+		return
+	}
+	wasm.RegisterModuleFactory("wazero", wasm.ModuleFactoryFunc(func(ctx context.Context, code []byte, typ string, reg *wasm.Registry) (wasm.Module, error) {
+		return fake, nil
+	}))
+	s := &Tier1Service{
+		blockType:             "sf.test.Block",
+		blockExecutionTimeout: time.Minute,
+		logger:                zap.NewNop(),
+		failedRequests:        map[string]*recordedFailure{},
+		runtimeConfig:         config.RuntimeConfig{SegmentSize: uint64(sym.Param("SEGSIZE", 2)), DefaultParallelSubrequests: 1, BaseObjectStore: base, DefaultCacheTag: "tag"},
+		getRecentFinalBlock:   func() (uint64, error) { return 0, nil },
+		getHeadBlock:          func() (uint64, error) { return 0, nil },
+		resolveCursor: func(ctx context.Context, cursor *bstream.Cursor) (reorgJunctionBlock, head bstream.BlockRef, err error) {
+			return nil, nil, nil
+		},
+	}
+	s.streamFactoryFunc = func(ctx context.Context, h bstream.Handler, startBlockNum int64, stopBlockNum uint64, cursor string, finalBlocksOnly bool, cursorIsTarget bool, logger *zap.Logger, extraOpts ...stream.Option) (Streamable, error) {
+		return &c07Stream{h: h, start: uint64(startBlockNum), stop: stopBlockNum}, nil
+	}
+	mods := c07Modules(fake.graph)
+	graph, err := exec.NewOutputModuleGraph("out", false, mods, 0)
+	if err != nil {
+		sym.Unreachable("graph-ok")
+		return
+	}
+	var got []*pbsubstreamsrpc.BlockScopedData
+	resp := func(r substreams.ResponseFromAnyTier) error {
+		if m, ok := r.(*pbsubstreamsrpc.Response); ok {
+			if d := m.GetBlockScopedData(); d != nil {
+				got = append(got, d)
+			}
+		}
+		return nil
+	}
+	req := &pbsubstreamsrpc.Request{StartBlockNum: 0, StopBlockNum: total, Modules: mods, OutputModule: "out", ProductionMode: false}
+	if err := s.blocks(context.Background(), req, graph, resp); err != nil {
+		sym.Unreachable("linear-request-completes")
+		return
+	}
+	sym.Assert(uint64(len(got)) == total, "client-receives-every-block-of-the-range-once")
+	for i, d := range got {
+		b := uint64(i)
+		if b >= total {
+			break
+		}
+		sym.Assert(d.Clock.Number == b, "client-receives-blocks-in-order")
+		sym.Assert(d.Clock.Id == c07ID(b), "client-receives-the-blocks-id")
+		sym.Assert(d.Output != nil && d.Output.Name == "out", "client-receives-the-output-module")
+		if d.Output != nil && d.Output.MapOutput != nil {
+			sym.Assert(sym.EqBytes(d.Output.MapOutput.Value, want[b]), "client-receives-the-payload-of-a-sequential-execution")
+		} else {
+			sym.Unreachable("client-receives-a-payload")
+		}
+	}
+	sym.Reach("linear-delivered")
 }
